@@ -172,7 +172,9 @@ def build_request(verb, tmpl, params, values, body="valid"):
     if has_body:
         bodyv = {"valid": '{"name":"x","count":2}', "missing": None, "malformed": '{"name":',
                  "illtyped": '{"name":5,"count":2}', "norequired": '{"count":1}',
-                 "unicode": '{"name":"héllo ✓ <&>","count":-1}', "null": "null"}[body]
+                 "unicode": '{"name":"héllo ✓ <&>","count":-1}', "null": "null",
+                 "trailing": '{"name":"x","count":2} -- and more', "twodocs": '{"name":"x","count":2} {"name":"y","count":3}',
+                 "whitespace": " \r\n"}[body]
     return {"method": verb, "path": path if path.startswith("/") else "/" + path, "query": query,
             "headers": headers, "form": form, "body": bodyv, "encoded_path": enc_path}
 
@@ -220,8 +222,15 @@ def route_requests(p, c, m):
     for prm in real:
         n = prm["name"]
         if prm["loc"] == "body":
-            for b in ("missing", "malformed", "illtyped", "norequired", "unicode", "null"):
+            for b in ("missing", "malformed", "illtyped", "norequired", "unicode", "null", "trailing", "twodocs", "whitespace"):
                 add("body-" + b, body=b)
+            # two faults at once: the body AND another parameter are invalid (the first one in signature order is reported)
+            for other in real:
+                if other["loc"] in ("body", "path") or other["type"] == "string" or other.get("slice"):
+                    continue
+                v = dict(base)
+                v[other["name"]] = "abc"
+                add("double-fault:%s+%s" % (n, other["name"]), v, body="malformed")
             continue
         if prm["loc"] != "path":
             v = dict(base)
